@@ -169,6 +169,19 @@ def main():
         for f in cf.as_completed(futs):
             results[futs[f]] = f.result()
 
+    # a main/finding job that ended without verdict (timeout / unknown) gets one more attempt in a fresh process: exploration
+    # time varies from run to run (solver state, machine load); a second 'unknown' is reported as inconclusive
+    again = [i for i in range(len(jobs)) if results[i].get("state") == "unknown" and jobs[i]["role"] != "witness"
+             and not os.environ.get("VERIF_NO_RETRY")]
+    if again:
+        with cf.ThreadPoolExecutor(max_workers=a.jobs) as ex:
+            futs = {ex.submit(run_worker, jobs[i]): i for i in again}
+            for f in cf.as_completed(futs):
+                first = results[futs[f]]
+                results[futs[f]] = f.result()
+                results[futs[f]]["retried_after"] = {k: first.get(k) for k in ("state", "paths", "wall_s", "unknowns",
+                                                                                "undecided_paths")}
+
     violations, knowns, inconclusive, errors = [], [], [], []
     per_ob = {}
     for job, v in zip(jobs, results):
@@ -182,6 +195,9 @@ def main():
                  "realizations": v.get("realizations"), "solver_calls": v.get("solver_calls"),
                  "solver_s": v.get("solver_s"), "wall_s": v.get("wall_s"), "cex": v.get("cex"),
                  "messages": v.get("messages"), "extra": v.get("extra")}
+        for k in ("fresh_solver_retries", "fresh_solver_decided", "undecided_paths", "unknowns", "retried_after"):
+            if v.get(k):
+                short[k] = v[k]
         rec["verdicts"].append(short)
         if st == "error":
             errors.append((name, v.get("error"), v.get("tb") or v.get("stderr")))
